@@ -403,11 +403,12 @@ func (s *uciSim) settle(cond func() bool, maxRounds int) bool {
 }
 
 // clockSettle: used when the evaluation budget is gone. Time passes (to the next known timer instant, else
-// an hour), then every task that can run is released with no credit (a search makes one evaluation per
-// release). Enough for a timer to fire, its Halt to get through and the search to notice at its next
-// poll; not enough for real searching.
+// an hour), then every task that can run is released, a search with a credit of a few hundred evaluations
+// (the budget is extended by that much; the allowance is deliberately far more than "the search notices at
+// its next poll" needs, so that a search that polls every few thousand nodes is still given the time).
 func (s *uciSim) clockSettle(cond func() bool, rounds int) bool {
 	s.stall = 0
+	s.k.ExtendBudget(rounds * 250)
 	s.sync()
 	for r := 0; r < rounds; r++ {
 		if cond() {
@@ -425,7 +426,11 @@ func (s *uciSim) clockSettle(cond func() bool, rounds int) bool {
 			if !s.releasable(tk) {
 				continue
 			}
-			s.release(tk, 0)
+			cr := 0
+			if tk.Role == "search" {
+				cr = 250
+			}
+			s.release(tk, cr)
 			s.sync()
 			if cond() {
 				return true
